@@ -30,7 +30,7 @@ VALUES = [
 INFIX = {"+", "-", "*", "/", "%", "^", "<", "<=", "==", "!=", ">", ">=", "±", "in", "="}
 PLOT_NAMES = {"plot", "line", "scatter", "histogram", "vline", "hline", "text", "options"}
 ALPHABET = ["0", "1", "9", "a", "e", "x", "b", "t", "o", "i", "n", "A", ".", "-", "+", "<", "=", "!", "\"", "#", "\\", " ", "\t",
-            "€", "²", "é", "@", "_", "(", ")", "{", "}", "[", "]", ",", ":", ";", "|", "^", "*", "/", "%", "±", "μ"]
+            "€", "²", "é", "@", "_", "㎞", "½", "ﬁ", "(", ")", "{", "}", "[", "]", ",", ":", ";", "|", "^", "*", "/", "%", "±", "μ"]
 TOKEN_TEXTS = ["1", "2.5", "1e3", "0x1F", "x", "pi", "sin", "m", "kg", "to", "in", "..", "[", ",", "]", "==", "!=", "<=", ">=", "<", ">",
                "=", ";", "(", ")", "+", "-", "*", "/", "%", "^", "±", "!", "|", "{", "}", ":", "\"s\"", "#2024-01-01#", "C", "max", "3!"]
 
@@ -204,7 +204,8 @@ def run(ctx):
     corpus = ["max(1)", "min()", "ceil(#2024-01-31#)", "#2024-01-01# + 1500 ms", "#2024-01-01T10:00:00+02:00# - #2024-01-01T10:00:00#",
               "log(8,0)", "log(8,-2)", "1.5e999", "10^5000", "range(1,5,0)", "range(1,5,-1)", "sample(Geometric(1))",
               "P(Binomial(3,0.5) <= 5/2)", "5!/(0*3!)", "3! m", "abs(3! m)", "instant", "15.0e308", "options(title: \"a\")", "1 kilodegC",
-              "1 μs to s", "", " ", "(", "1 +", "\"abc", "#2024", "0b102", "x", "1/0", "2^(1/2)", "{x : 1 < 2}"]
+              "1 μs to s", "sin(1e308*10.5)", "x = 1.5e308*10; round(x-x)", "1e308*10.5", "1e308*10.5 - 1e308*10.5", "floor(1e308*10.5)",
+              "#2024-01-01# + (1e308*10.5) s", "㎞ +", "㎏ ㎏ )", "1 ½", "㎞ ?", "", " ", "(", "1 +", "\"abc", "#2024", "0b102", "x", "1/0", "2^(1/2)", "{x : 1 < 2}"]
     cases = [("corpus", t, True) for t in corpus] + cases
     if ctx.get("replay"):
         r = json.load(open(ctx["replay"]))
